@@ -44,11 +44,26 @@ func newScript() *Script {
 
 func (s *Script) preamble() string {
 	ix := s.ixSort()
-	return `(define-sort Ref () Int)
+	pre := `(define-sort Ref () Int)
 (define-fun null () Ref 0)
 (declare-datatypes ((Slice 0)) (((mk_slice (sl_base Ref) (sl_off ` + ix + `) (sl_len ` + ix + `) (sl_cap ` + ix + `)))))
 (declare-datatypes ((Iface 0)) (((mk_iface (if_tag Int) (if_ref Ref)))))
 `
+	if s.mathInt {
+		// position of element k of a slice with offset o: o + k, written as a function application so that
+		// quantified facts about "element k" have a trigger that matches ground element terms (solvers
+		// normalise sums, and a pattern (+ o k) would match none of them)
+		pre += "(declare-fun ix_at (Int Int) Int)\n(assert (forall ((o Int) (k Int)) (! (= (ix_at o k) (+ o k)) :pattern ((ix_at o k)))))\n"
+	}
+	return pre
+}
+
+// ixElem: the position of element idx of a slice whose offset is off.
+func (s *Script) ixElem(off, idx string) string {
+	if s.mathInt {
+		return "(ix_at " + off + " " + idx + ")"
+	}
+	return s.ixAdd(off, idx)
 }
 
 // Index arithmetic: Go's int is a 64-bit vector by default and a mathematical integer in
